@@ -712,7 +712,7 @@ def antisense_shared_exon_locus(w, gid, chrom, p):
     return [ga, gb, gm, gn], p + 3900
 
 
-def micro_exon_sibling_locus(w, gid, chrom, p, strand, side="after", abut=False):
+def micro_exon_sibling_locus(w, gid, chrom, p, strand, side="after", abut=False, near=False):
     """Annotated host e1-e2-e5; two unannotated isoforms through e1-e2: X (thin) continues with intron I1, a 10-bp micro-exon and intron
     I2; Y (5x the coverage) continues with intron I1' that shares I1's start and ends 15 bp further (inside I2), i.e. a sibling of I1 in
     the intron graph that overlaps X's next intron.  side="before": the mirror arrangement (micro-exon before the sibling pair)."""
@@ -722,6 +722,11 @@ def micro_exon_sibling_locus(w, gid, chrom, p, strand, side="after", abut=False)
     if abut:
         # the sibling intron ends exactly one base before X's next intron begins: substituting it would leave an exon of length 0
         y[2] = (2511, 2800)
+    if near:
+        # a 4-bp micro-exon, and the sibling intron ends 5 bp after I1 (within the distance at which similar introns are CLUSTERED, before
+        # the graph exists): it covers the micro-exon and the first base of X's next intron
+        x[2] = (2501, 2504)
+        y[2] = (2506, 2800)
     span = 4600
 
     def place(ex):
@@ -1086,7 +1091,7 @@ def add_zoo(w, parts=ZOO_ALL):
             dense_two_exon_locus(w, "ZDN" + tag, chrom, _free_pos(w, chrom, 3000), "+-"[ci % 2])
             placed.add("dense_two_exon")
         if "micro_exon_sibling" in parts and room(7500):
-            micro_exon_sibling_locus(w, "ZMX" + tag, chrom, _free_pos(w, chrom), "+-"[ci % 2], ("after", "before")[(ci // 2) % 2], abut=ci % 3 == 1)
+            micro_exon_sibling_locus(w, "ZMX" + tag, chrom, _free_pos(w, chrom), "+-"[ci % 2], ("after", "before")[(ci // 2) % 2], abut=ci % 3 == 1, near=ci % 3 == 2)
             placed.add("micro_exon_sibling")
         if "two_cluster" in parts and ci % 2 == 0 and room(15000):
             # one reference isoform seen from two separate read clusters (5' and 3' fragments on either side of a long intron)
